@@ -336,7 +336,7 @@ func (ex *Exec) loopBackEdge(st *State, li *loopInfo) {
 			newVals := map[string]Value{}
 			for _, g := range li.spec.Ghosts {
 				if g.Update != nil {
-					newVals[g.Name] = uenv.eval(g.Update).V
+					newVals[g.Name] = ex.evalGhostUpdate(uenv, st, li, g)
 				}
 			}
 			for k, v := range newVals {
@@ -362,6 +362,25 @@ func (ex *Exec) loopBackEdge(st *State, li *loopInfo) {
 		}
 	}
 	ex.endPath()
+}
+
+// evalGhostUpdate evaluates `backedge g = e` at a back edge. On a path of (changed) code where e names a local that this
+// path never defined, the update cannot be bound: the ghost then gets an arbitrary value (sound: nothing is known about
+// it), so the invariants that speak about it decide - instead of the whole function becoming 'contract unbound'.
+func (ex *Exec) evalGhostUpdate(uenv *Env, st *State, li *loopInfo, g GhostLoopVar) (v Value) {
+	defer func() {
+		if r := recover(); r != nil {
+			if se, isSpec := r.(specErr); isSpec && strings.HasPrefix(se.msg, "unknown identifier") {
+				ex.note(fmt.Sprintf("loop %d ghost update of %s could not be bound on a path (%s): arbitrary value", li.ordinal, g.Name, se.msg))
+				if sc, ok := st.ghost[g.Name].(Sc); ok {
+					v = Sc{ex.ctx.Fresh("ghost_"+g.Name, sc.T.Sort)}
+					return
+				}
+			}
+			panic(r)
+		}
+	}()
+	return uenv.eval(g.Update).V
 }
 
 // runBody runs from the loop header in discovery mode; paths end at back edges and loop exits.
